@@ -1,4 +1,9 @@
-"""C18 — dt.Set. A case: (set (mk ordered sync) (mk ...) op...), one observation per op."""
+"""C18 — dt.Set. A case: (set (mk ordered sync) (mk ...) op...), one observation per op.
+Besides the differential run, the model is tied to the source by a regenerated tie (T-gen): tools/go2lean
+(setops.go) rewrites lean/FunGen/SetOps.lean from $VERIF_REPO/dt/set.go on every run and the theorems of
+lean/FunProps/C18Gen.lean (picked up with every other FunProps/C18*.lean module: built, counted, axiom-audited)
+say that the model's operations are what the generated functions compute. If dt/set.go leaves the
+translator's subset, FunGen/SetOps.lean does not compile and this property (only) reports a broken tie."""
 from . import common as C
 
 PROP = "C18"
@@ -10,7 +15,10 @@ RULE = ("operation sequences over two sets and the value domain {0..5} (+ occasi
         "case lines.")
 TRUSTED = ["Go map iteration order is unspecified: unordered observations are compared as sorted sequences and Sort* on an "
            "unordered set is only run with total comparators", "the dt.List under an ordered set is modelled at the sequence "
-           "level (its pointer-level behaviour is C16)"]
+           "level (its pointer-level behaviour is C16)",
+           "T-gen (FunGen/SetOps.lean): what dt.Set's callees do — Go map read/store/delete/len/range, dt.List Back().Append/"
+           "PushBack/Remove/Sort*/iteration, NewElement, iterator Observe/Next/Close — is fixed by hand in "
+           "lean/FunModel/SetPrim.lean; the locking calls of dt.Set are skipped by the translator (C13, setexcl)"]
 ASSUMPTIONS = ["Equal(s, s) / Equal of two sets sharing one mutex is not called on synchronized sets (it self-deadlocks: recorded finding)",
                "Extend of an ordered set from an unordered set with more than one member is excluded (order unspecified)"]
 
